@@ -19,6 +19,7 @@
    the independent predicates of harness/props/c15.py. *)
 From Coq Require Import List String ZArith Bool Arith.
 From GinV Require Import Lib.Out Lib.PyStr Model.SelectorMap Model.Parser Model.Stmt Model.StmtSpec Model.StmtEngine Proofs.StmtProofs Proofs.StmtProofs2 Proofs.StmtProofs3 Proofs.StmtProofs4.
+From GinV Require Model.DynReg Proofs.DynRegProofs Proofs.DynRegSkip.
 Import ListNotations.
 Open Scope string_scope.
 Open Scope list_scope.
@@ -144,6 +145,94 @@ Proof. exact StmtProofs3.C15_first_unknown_is_ValueError_at_point. Qed.
 Theorem C15_dynamic_nonvacuous : True.
 Proof. pose proof StmtProofs4.C15DynExample.reduced. pose proof StmtProofs4.C15DynExample.run_list. exact I. Qed.
 
+(* ---- skip_unknown under dynamic registration (Model/DynReg.v, Proofs/DynRegSkip.v) ---- *)
+(* Under dynamic registration a name is KNOWN when it is registered or when the file's own imports provide it
+   (ParseContext.provides: it would be registered on first use).  The code before the repair consulted the registry
+   only and dropped bindings to names that were merely not registered yet. *)
+Theorem C15_dyn_provided_never_skipped : forall c sel, DynReg.provides c sel = true ->
+  forall sk reg, DynReg.should_skip_dyn sk reg c sel = false.
+Proof. exact DynRegSkip.C15_dyn_provided_never_skipped. Qed.
+Theorem C15_dyn_registered_never_skipped : forall reg sel, DynReg.reg_matches reg sel = true ->
+  forall sk c, DynReg.should_skip_dyn sk reg c sel = false.
+Proof. exact DynRegSkip.C15_dyn_registered_never_skipped. Qed.
+Theorem C15_dyn_skip_decision : forall sk reg c sel, DynReg.reg_matches reg sel = false -> DynReg.provides c sel = false ->
+  DynReg.should_skip_dyn sk reg c sel = DynReg.dsk_covers sk sel.
+Proof. exact DynRegSkip.C15_dyn_skip_decision. Qed.
+Theorem C15_dyn_skipped_block_dropped : forall skipf univ sk scope sel rest s refs c, skipf sk (DynReg.ds_reg s) c sel = true ->
+  DynReg.run_stmts_sk skipf univ sk (DynReg.DBlock scope sel :: rest) s refs c = DynReg.run_stmts_sk skipf univ sk rest s refs c.
+Proof. exact DynRegSkip.C15_dyn_skipped_block_dropped. Qed.
+Theorem C15_dyn_skipped_binding_dropped : forall skipf univ sk scope sel param z rest s refs c, skipf sk (DynReg.ds_reg s) c sel = true ->
+  DynReg.run_stmts_sk skipf univ sk (DynReg.DBind scope sel param (DynReg.DVal z) :: rest) s refs c = DynReg.run_stmts_sk skipf univ sk rest s refs c.
+Proof. exact DynRegSkip.C15_dyn_skipped_binding_dropped. Qed.
+Theorem C15_dyn_skipped_ref_binding_dropped : forall skipf univ sk scope sel param scopes rsel rest s refs c s1 refs1 c1,
+  skipf sk (DynReg.ds_reg s) c rsel = false ->
+  DynReg.run_stmts univ [DynReg.DBlock "" rsel] s refs c = (s1, refs1, c1, None) -> skipf sk (DynReg.ds_reg s1) c1 sel = true ->
+  DynReg.run_stmts_sk skipf univ sk (DynReg.DBind scope sel param (DynReg.DRef scopes rsel) :: rest) s refs c
+  = DynReg.run_stmts_sk skipf univ sk rest s1 refs1 c1.
+Proof. exact DynRegSkip.C15_dyn_skipped_ref_binding_dropped. Qed.
+(* a reference to a name that is itself skipped is a placeholder: nothing is resolved or registered for it; the binding
+   stores an opaque plain value *)
+Theorem C15_dyn_placeholder_binding : forall skipf univ sk scope sel param scopes rsel rest s refs c,
+  skipf sk (DynReg.ds_reg s) c rsel = true -> skipf sk (DynReg.ds_reg s) c sel = false ->
+  DynReg.run_stmts_sk skipf univ sk (DynReg.DBind scope sel param (DynReg.DRef scopes rsel) :: rest) s refs c =
+  DynRegSkip.then_run (DynReg.run_stmts univ [DynReg.DBind scope sel param (DynReg.DVal 0)] s refs c) (DynReg.run_stmts_sk skipf univ sk rest).
+Proof. exact DynRegSkip.C15_dyn_placeholder_binding. Qed.
+Theorem C15_dyn_placeholder_binding_dropped : forall skipf univ sk scope sel param scopes rsel rest s refs c,
+  skipf sk (DynReg.ds_reg s) c rsel = true -> skipf sk (DynReg.ds_reg s) c sel = true ->
+  DynReg.run_stmts_sk skipf univ sk (DynReg.DBind scope sel param (DynReg.DRef scopes rsel) :: rest) s refs c
+  = DynReg.run_stmts_sk skipf univ sk rest s refs c.
+Proof. exact DynRegSkip.C15_dyn_placeholder_binding_dropped. Qed.
+Theorem C15_dyn_placeholder_registers_nothing : forall skipf univ sk scope sel param scopes rsel s refs c,
+  skipf sk (DynReg.ds_reg s) c rsel = true -> skipf sk (DynReg.ds_reg s) c sel = false ->
+  DynReg.run_stmts_sk skipf univ sk [DynReg.DBind scope sel param (DynReg.DRef scopes rsel)] s refs c =
+  DynReg.run_stmts univ [DynReg.DBind scope sel param (DynReg.DVal 0)] s refs c.
+Proof. exact DynRegSkip.C15_dyn_placeholder_registers_nothing. Qed.
+(* a reference to a name the file's own imports provide is never a placeholder: it is resolved *)
+Theorem C15_dyn_provided_reference_resolved : forall univ sk scope sel param scopes rsel rest s refs c,
+  DynReg.provides c rsel = true ->
+  DynReg.run_stmts_sk DynReg.should_skip_dyn univ sk (DynReg.DBind scope sel param (DynReg.DRef scopes rsel) :: rest) s refs c =
+  DynRegSkip.then_run (DynReg.run_stmts univ [DynReg.DBlock "" rsel] s refs c)
+    (fun s1 refs1 c1 =>
+       if DynReg.should_skip_dyn sk (DynReg.ds_reg s1) c1 sel then DynReg.run_stmts_sk DynReg.should_skip_dyn univ sk rest s1 refs1 c1
+       else DynRegSkip.then_run (DynReg.run_stmts univ [DynReg.DBind scope sel param (DynReg.DRef scopes rsel)] s1 refs1 c1)
+                                (DynReg.run_stmts_sk DynReg.should_skip_dyn univ sk rest)).
+Proof. exact DynRegSkip.C15_dyn_provided_reference_resolved. Qed.
+(* nowhere.thing unknown: with skip_unknown=True the binding stores an opaque value, nothing registered for the reference;
+   with False it is a NameError *)
+Theorem C15_dyn_placeholder_example :
+  DynRegSkip.DynSkipExample.summary_refs (DynReg.run_stmts_sk DynReg.should_skip_dyn DynRegSkip.DynSkipExample.univ DynReg.DSkTrue
+     DynRegSkip.DynSkipExample.stmts_ph DynRegSkip.DynSkipExample.s0 [] DynReg.empty_ctx)
+    = (["dmod.fn"], [(("", "dmod.fn"), [("x", 0%Z)])], [], None) /\
+  DynRegSkip.DynSkipExample.summary_refs (DynReg.run_stmts_sk DynReg.should_skip_dyn DynRegSkip.DynSkipExample.univ DynReg.DSkFalse
+     DynRegSkip.DynSkipExample.stmts_ph DynRegSkip.DynSkipExample.s0 [] DynReg.empty_ctx) = ([], [], [], Some "NameError").
+Proof. exact DynRegSkip.DynSkipExample.C15_dyn_placeholder_example. Qed.
+Theorem C15_dyn_missing_import_dropped : forall skipf univ sk d rest s refs c, DynReg.dsk_truthy sk = true ->
+  DynReg.process_import univ c d = DynReg.DErr "ModuleNotFoundError" ->
+  DynReg.run_stmts_sk skipf univ sk (DynReg.DImport d :: rest) s refs c = DynReg.run_stmts_sk skipf univ sk rest s refs c.
+Proof. exact DynRegSkip.C15_dyn_missing_import_dropped. Qed.
+(* when every target is known at its point and no import is skipped, skip_unknown is irrelevant *)
+Theorem C15_dyn_known_targets_skip_irrelevant : forall univ sk stmts s refs c,
+  DynRegProofs.class_ids_ok (DynReg.PMod univ) = true -> DynRegProofs.table_ok c ->
+  DynRegSkip.all_known_dyn univ sk stmts s refs c = true ->
+  DynReg.run_stmts_sk DynReg.should_skip_dyn univ sk stmts s refs c = DynReg.run_stmts univ stmts s refs c.
+Proof. exact DynRegSkip.C15_dyn_known_targets_skip_irrelevant. Qed.
+(* skip_unknown=False is the plain parse *)
+Theorem C15_dyn_skip_false : forall univ stmts s refs c, DynRegProofs.class_ids_ok (DynReg.PMod univ) = true -> DynRegProofs.table_ok c ->
+  DynReg.run_stmts_sk DynReg.should_skip_dyn univ DynReg.DSkFalse stmts s refs c = DynReg.run_stmts univ stmts s refs c.
+Proof. exact DynRegSkip.run_stmts_sk_false_dyn. Qed.
+(* the code before the repair: `import dmod` / `dmod.fn.x = 1` with skip_unknown=True lost the binding *)
+Theorem C15_dyn_orig_drops_provided_binding :
+  DynRegSkip.DynSkipExample.summary (DynReg.run_stmts_sk DynReg.should_skip_dyn_orig DynRegSkip.DynSkipExample.univ DynReg.DSkTrue
+     DynRegSkip.DynSkipExample.stmts DynRegSkip.DynSkipExample.s0 [] DynReg.empty_ctx) = ([], [], None) /\
+  DynRegSkip.DynSkipExample.summary (DynReg.run_stmts_sk DynReg.should_skip_dyn DynRegSkip.DynSkipExample.univ DynReg.DSkTrue
+     DynRegSkip.DynSkipExample.stmts DynRegSkip.DynSkipExample.s0 [] DynReg.empty_ctx)
+    = (["dmod.fn"], [(("", "dmod.fn"), [("x", 1%Z)])], None) /\
+  DynReg.run_stmts_sk DynReg.should_skip_dyn DynRegSkip.DynSkipExample.univ DynReg.DSkTrue
+     DynRegSkip.DynSkipExample.stmts DynRegSkip.DynSkipExample.s0 [] DynReg.empty_ctx
+    = DynReg.run_stmts DynRegSkip.DynSkipExample.univ DynRegSkip.DynSkipExample.stmts DynRegSkip.DynSkipExample.s0 [] DynReg.empty_ctx /\
+  DynRegSkip.all_known_dyn DynRegSkip.DynSkipExample.univ DynReg.DSkTrue DynRegSkip.DynSkipExample.stmts DynRegSkip.DynSkipExample.s0 [] DynReg.empty_ctx = true.
+Proof. exact DynRegSkip.DynSkipExample.C15_dyn_orig_drops_provided_binding. Qed.
+
 Print Assumptions C15_known_never_skipped.
 Print Assumptions C15_skip_false.
 Print Assumptions C15_skip_list.
@@ -165,3 +254,18 @@ Print Assumptions C15_import_registers.
 Print Assumptions C15_unknown_before_import.
 Print Assumptions C15_first_unknown_is_ValueError_at_point.
 Print Assumptions C15_dynamic_nonvacuous.
+Print Assumptions C15_dyn_provided_never_skipped.
+Print Assumptions C15_dyn_registered_never_skipped.
+Print Assumptions C15_dyn_skip_decision.
+Print Assumptions C15_dyn_skipped_block_dropped.
+Print Assumptions C15_dyn_skipped_binding_dropped.
+Print Assumptions C15_dyn_skipped_ref_binding_dropped.
+Print Assumptions C15_dyn_missing_import_dropped.
+Print Assumptions C15_dyn_known_targets_skip_irrelevant.
+Print Assumptions C15_dyn_skip_false.
+Print Assumptions C15_dyn_orig_drops_provided_binding.
+Print Assumptions C15_dyn_placeholder_binding.
+Print Assumptions C15_dyn_placeholder_binding_dropped.
+Print Assumptions C15_dyn_placeholder_registers_nothing.
+Print Assumptions C15_dyn_provided_reference_resolved.
+Print Assumptions C15_dyn_placeholder_example.
